@@ -160,6 +160,11 @@ def simulate(model, survey, grids, max_workers, file_dir, what):
     out['compute_again'] = sim.data.synthetic.data.copy()
     if file_dir:
         out['files'] = sorted(os.listdir(file_dir))
+    # the forward computation once more from scratch, after gradient / jvec
+    # have run (same object, same options)
+    sim.clean('computed')
+    sim.compute()
+    out['recompute'] = sim.data.synthetic.data.copy()
     return out
 
 
@@ -191,7 +196,7 @@ def suite_sims(ctx):
                 bad.append((w, fd, 'raised'))
                 continue
             for key in ['synthetic', 'misfit', 'gradient', 'jvec',
-                        'compute_again']:
+                        'compute_again', 'recompute']:
                 if not np.array_equal(np.asarray(res[key]),
                                       np.asarray(base[key]), equal_nan=True):
                     bad.append((w, fd, key))
@@ -261,6 +266,39 @@ def suite_sims(ctx):
         if not np.array_equal(base['compute_again'], base['synthetic']):
             ctx.violation('repeat-changes-result', 'repeating compute() '
                           'changes the synthetic data', {})
+        if not np.array_equal(base['recompute'], base['synthetic']):
+            ctx.violation(
+                'repeat-changes-result',
+                'compute(); gradient; jvec; clean("computed"); compute() '
+                'gives other synthetic data than the first compute() of the '
+                'same simulation (max rel. diff '
+                f'{np.nanmax(np.abs(base["recompute"]-base["synthetic"])/np.abs(base["synthetic"])):.3g})',
+                {'sequence': 'compute gradient jvec clean compute'})
+            bad.append(('recompute',))
+        # names with dots (e.g. frequencies '0.5Hz'): one file per task
+        try:
+            m3, s3, g3 = build(ctx.nprng('sims'), names=(
+                ['Tx.1', 'Tx.2'], ['0.5Hz', '0.8Hz', '0.25Hz']))
+            d1 = simulate(m3, s3, g3, 1, None, {'observed': True})
+            d2 = simulate(m3, s3, g3, 2, os.path.join(CACHE, 'fd_dots'),
+                          {'observed': True})
+            for k_ in d1['fields']:
+                if not np.array_equal(d1['fields'][k_][0],
+                                      d2['fields'][k_][0]):
+                    bad.append(('dots', k_))
+                    ctx.violation(
+                        'slot-holds-foreign-result',
+                        f'sources Tx.1, Tx.2 x frequencies 0.5Hz, 0.8Hz, '
+                        f'0.25Hz: the file-based field of slot {k_} differs '
+                        f'from the in-memory field',
+                        {'slot': list(k_), 'names': 'dotted'})
+                    break
+            ctx.count(key=('sim-dots',))
+        except Exception as e:      # noqa
+            ctx.violation('simulation-raises',
+                          f'names with dots: {type(e).__name__}: {e}',
+                          {'names': 'dotted'})
+            bad.append(('dots', 'raised'))
         # task list vs model
         o = common.run_driver(['slots | ' + ' '.join(survey.sources) + ' | ' +
                                ' '.join(survey.frequencies)])[0]
